@@ -185,7 +185,8 @@ func (s *auditSink) Write(p []byte) (int, error) {
 		s.buf = s.buf[i+1:]
 		var e struct {
 			Principal struct {
-				User string `json:"user"`
+				User string   `json:"user"`
+				Tags []string `json:"tags"`
 			} `json:"principal"`
 			Action        string `json:"action"`
 			Authorized    bool   `json:"authorized"`
@@ -195,6 +196,10 @@ func (s *auditSink) Write(p []byte) (int, error) {
 		rec := &auditRec{Principal: -1}
 		if err := json.Unmarshal(line, &e); err == nil {
 			id, _ := strconv.Atoi(strings.TrimPrefix(e.Principal.User, "user"))
+			if len(e.Principal.Tags) > 0 { // a tagged node: id of the tag set
+				id, _ = strconv.Atoi(strings.TrimPrefix(e.Principal.Tags[0], "tag:t"))
+				id += 1000
+			}
 			rec = &auditRec{Principal: id, Action: e.Action, Secret: []byte(e.Secret), Version: e.SecretVersion, Authorized: e.Authorized}
 		}
 		s.fx = append(s.fx, fxObs{Kind: "audit", Rec: rec})
